@@ -386,7 +386,7 @@ pub fn run(ctx: &mut Ctx) {
     // long alternative lists as leaves (17..300 alternatives in depth-2 trees, up to 3000 in
     // single operations), evaluated on a 256 KiB stack
     ctx.stratum("L-long-alternative-lists", false);
-    let nl = ctx.tier.n(40, 1_500);
+    let nl = ctx.tier.n(40, 400);
     for i in 0..nl {
         if !ctx.take() {
             continue;
